@@ -186,13 +186,13 @@ int main(int argc, char **argv) {
     ev.rule = "part 1 (this build): two interface contexts with independently generated configurations (or identical ones incl. the same station table) and histories, generated merge order, Reset on one in the middle of the other's session; "
               "per-interface transmit trace under the interleaving must equal the trace of the same history run alone in a fresh process state. part 2 (TSan build): see histogram keys c17-threads. "
               "non-trivial = both histories elicit >= 2 transmissions and the merge alternates >= 2 times; distinct = digest of the case";
-    ok = run_cases(a, ev, "c17-interleavings", a.n(3000, 200000), 100, gen(-1), run);
+    ok = run_cases(a, ev, "c17-interleavings", a.n(15000, 400000), 100, gen(-1), run);
 #else
     ev.rule = "part 2 (this build, ThreadSanitizer, lock-free thread-local port): per round two threads are released by a barrier and each delivers its generated history to its own interface context. Phase A: both contexts new "
               "(both first frames at the same moment); phase B: both contexts warmed up sequentially first. Every ThreadSanitizer report is classified by the innermost core frame of both racing accesses; "
               "phase B additionally compares each thread's trace with the solo trace. non-trivial = both threads deliver >= 1 frame; distinct = digest of the case";
-    ok = run_cases(a, ev, "c17-threads-phaseB", a.n(200, 4000), 100, gen(1), run);
-    if (ok) ok = run_cases(a, ev, "c17-threads-phaseA", a.n(100, 1000), 100, gen(0), run);
+    ok = run_cases(a, ev, "c17-threads-phaseB", a.n(600, 8000), 100, gen(1), run);
+    if (ok) ok = run_cases(a, ev, "c17-threads-phaseA", a.n(200, 2000), 100, gen(0), run);
     ev.count("c17-threads:tsan-reports-known-finding(lltd_state_for_iface)", (uint64_t)g_races.known.load());
     ev.count("c17-threads:tsan-reports-other-core", (uint64_t)g_races.other.load());
     ev.count("c17-threads:tsan-reports-harness-only", (uint64_t)g_races.harness_only.load());
